@@ -549,6 +549,30 @@ fn check_gc(seq: &[u8], cc: &mut CaseCtx) {
     if !((g as f64 - want).abs() <= 1e-6) {
         cc.violation("C20/gc_content/wrong-fraction", format!("gc_content = {}, {} of {} symbols are G/C", g, cnt, n));
     }
+    // the same sequence handed over as iterators that do not know their length in advance
+    // (filter / chain / flat_map have a size_hint lower bound that is not the length)
+    let r2 = guard(|| {
+        let filtered = gc_content(seq.iter().filter(|_| true));
+        let (a, b) = seq.split_at(n / 2);
+        let chained3 = gc3_content(a.iter().chain(b.iter()).filter(|_| true));
+        let flat = gc_content(seq.chunks(2).flat_map(|c| c.iter()));
+        (filtered, chained3, flat)
+    });
+    match r2 {
+        Err(msg) => {
+            cc.violation("C20/gc_content/panic", format!("iterator input: {}", msg));
+            return;
+        }
+        Ok((f1, c3, f2)) => {
+            if f1.to_bits() != g.to_bits() || f2.to_bits() != g.to_bits() || c3.to_bits() != g3.to_bits() {
+                cc.violation(
+                    "C20/gc_content/depends-on-iterator-kind",
+                    format!("slice: gc {} gc3 {}; filter iterator: {}; flat_map iterator: {}; chained gc3: {}", g, g3, f1, f2, c3),
+                );
+                return;
+            }
+        }
+    }
     let want3 = cnt3 as f64 / third.len() as f64;
     if !((g3 as f64 - want3).abs() <= 1e-6) {
         cc.violation(
